@@ -49,6 +49,14 @@ def referent_table(fn: ast.FunctionDef) -> Dict[Tuple[bool, bool], List[str]]:
 
 def selection_idiom(fn: ast.FunctionDef, listname: str = "matches") -> Tuple[Optional[bool], str]:
     """How resolve_name picks among equally long matches: True = the first (innermost scope) wins."""
+    for nm in pool_names(fn) or [listname]:
+        v, why = _selection_idiom(fn, nm)
+        if v is not None:
+            return v, why
+    return None, "selection among matches is not one of the recognised idioms"
+
+
+def _selection_idiom(fn: ast.FunctionDef, listname: str) -> Tuple[Optional[bool], str]:
     src_max = None
     for n in ast.walk(fn):
         if isinstance(n, ast.Call) and dotted(n.func) == "max" and n.args and isinstance(n.args[0], ast.Name) and n.args[0].id == listname:
@@ -78,27 +86,71 @@ def selection_idiom(fn: ast.FunctionDef, listname: str = "matches") -> Tuple[Opt
                         return False, "ascending sort, first element: the shortest match wins"
                     if i == -1 and rev:
                         return False, "descending sort, last element: the shortest match wins"
+    if rev is None:
+        # no ranking at all: a plain position in the pool (all candidates of one pass have the same length)
+        for n in ast.walk(fn):
+            if isinstance(n, ast.Subscript) and isinstance(n.ctx, ast.Load) and isinstance(n.value, ast.Name) and n.value.id == listname:
+                try:
+                    i = ast.literal_eval(n.slice)
+                except Exception:  # noqa: BLE001
+                    continue
+                if i == 0:
+                    return True, "the first candidate of the pool (innermost scope) is returned"
+                if i == -1:
+                    return False, "the LAST candidate of the pool (outermost scope) is returned, so an outer binding shadows a macro's iteration variable"
     return None, "selection among matches is not one of the recognised idioms"
+
+
+def pool_names(fn: ast.FunctionDef) -> List[str]:
+    """Names of the candidate pool: whatever is filled inside the `for <scope> in ...parent_iter()` loop, and the
+    names such a pool is assigned to afterwards (`matches = found`)."""
+    loops = [n for n in ast.walk(fn) if isinstance(n, ast.For) and "parent_iter()" in ast.unparse(n.iter)]
+    pools: List[str] = []
+    for loop in loops:
+        for n in ast.walk(loop):
+            if isinstance(n, ast.Call) and isinstance(n.func, ast.Attribute) and isinstance(n.func.value, ast.Name) and n.func.attr in ("append", "insert", "setdefault", "update", "add", "extend"):
+                if n.func.value.id not in pools:
+                    pools.append(n.func.value.id)
+            if isinstance(n, ast.Subscript) and isinstance(n.ctx, ast.Store) and isinstance(n.value, ast.Name) and n.value.id not in pools:
+                pools.append(n.value.id)
+    changed = True
+    while changed:
+        changed = False
+        for n in ast.walk(fn):
+            if isinstance(n, (ast.Assign, ast.AnnAssign)) and n.value is not None and isinstance(strip_cast(n.value), ast.Name) and strip_cast(n.value).id in pools:
+                for t in (n.targets if isinstance(n, ast.Assign) else [n.target]):
+                    if isinstance(t, ast.Name) and t.id not in pools:
+                        pools.append(t.id)
+                        changed = True
+    return pools
 
 
 def accumulation_shape(fn: ast.FunctionDef, listname: str = "matches") -> Tuple[Optional[bool], str]:
     """How the candidates are collected: True = a list appended to in parent_iter() order, every candidate kept
     (so position in the pool = scope order, innermost first)."""
-    init = None
+    pools = pool_names(fn)
+    if not pools:
+        return None, "no pool of candidates filled inside a `for <scope> in ...parent_iter()` loop was found"
+    inits = []
     for n in ast.walk(fn):
         tgt = None
         if isinstance(n, ast.Assign) and len(n.targets) == 1:
             tgt, val = n.targets[0], n.value
         elif isinstance(n, ast.AnnAssign) and n.value is not None:
             tgt, val = n.target, n.value
-        if isinstance(tgt, ast.Name) and tgt.id == listname:
-            if init is not None:
-                return None, f"`{listname}` is assigned more than once"
-            init = val
-    if init is None:
-        return None, f"no initialisation of `{listname}` found"
-    is_list = (isinstance(init, ast.List) and not init.elts) or (isinstance(init, ast.Call) and dotted(init.func) == "list" and not init.args)
-    is_dict = (isinstance(init, ast.Dict) and not init.keys) or (isinstance(init, ast.Call) and dotted(init.func) in ("dict", "OrderedDict", "collections.OrderedDict") and not init.args)
+        if isinstance(tgt, ast.Name) and tgt.id in pools:
+            v = strip_cast(val)
+            if isinstance(v, ast.Name) and v.id in pools:
+                continue  # alias of the pool
+            inits.append(v)
+    if not inits:
+        return None, f"no initialisation of the pool {pools} found"
+    def empty_list(i): return (isinstance(i, ast.List) and not i.elts) or (isinstance(i, ast.Call) and dotted(i.func) == "list" and not i.args)
+    def empty_dict(i): return (isinstance(i, ast.Dict) and not i.keys) or (isinstance(i, ast.Call) and dotted(i.func) in ("dict", "OrderedDict", "collections.OrderedDict") and not i.args)
+    is_list = all(empty_list(i) for i in inits)
+    is_dict = all(empty_dict(i) for i in inits)
+    if not is_list and not is_dict:
+        return None, f"the pool {pools} is not initialised as an empty list / dict"
     loops = [n for n in ast.walk(fn) if isinstance(n, ast.For) and "parent_iter()" in ast.unparse(n.iter)]
     if len(loops) != 1 or not isinstance(loops[0].target, ast.Name):
         return None, "not exactly one `for <scope> in ...parent_iter()` loop"
@@ -122,34 +174,34 @@ def accumulation_shape(fn: ast.FunctionDef, listname: str = "matches") -> Tuple[
     writes = 0
     for n in ast.walk(fn):
         # mutations of the pool
-        if isinstance(n, ast.Call) and isinstance(n.func, ast.Attribute) and dotted(n.func.value) == listname:
+        if isinstance(n, ast.Call) and isinstance(n.func, ast.Attribute) and isinstance(n.func.value, ast.Name) and n.func.value.id in pools:
             m = n.func.attr
             if m in ("get", "items", "values", "keys", "copy", "index", "count", "sort"):  # sort: judged by selection_idiom
                 continue
             if id(n) not in inside:
-                return None, f"`{listname}.{m}(...)` outside the scope loop"
+                return None, f"`{n.func.value.id}.{m}(...)` outside the scope loop"
             writes += 1
             if is_list and m == "append" and len(n.args) == 1:
                 continue
             if is_list and m == "insert" and n.args and isinstance(n.args[0], ast.Constant) and n.args[0].value == 0:
-                return False, (f"candidates are collected with `{listname}.insert(0, ...)`: the pool is in reverse scope order, so among equally long "
+                return False, (f"candidates are collected with `{n.func.value.id}.insert(0, ...)`: the pool is in reverse scope order, so among equally long "
                                "matches the outermost scope is met first and an outer binding shadows a macro's iteration variable")
-            return None, f"`{listname}.{m}(...)` is not a recognised way of collecting candidates"
-        if isinstance(n, ast.Subscript) and isinstance(n.ctx, ast.Store) and dotted(n.value) == listname:
+            return None, f"`{n.func.value.id}.{m}(...)` is not a recognised way of collecting candidates"
+        if isinstance(n, ast.Subscript) and isinstance(n.ctx, ast.Store) and isinstance(n.value, ast.Name) and n.value.id in pools:
             if id(n) not in inside:
-                return None, f"`{listname}[...] = ...` outside the scope loop"
+                return None, f"`{n.value.id}[...] = ...` outside the scope loop"
             writes += 1
             if is_dict and not depends_on_scope(n.slice):
-                return False, (f"candidates are stored as `{listname}[{ast.unparse(n.slice)}] = ...` with a key that does not depend on the scope `{scope}`: "
+                return False, (f"candidates are stored as `{n.value.id}[{ast.unparse(n.slice)}] = ...` with a key that does not depend on the scope `{scope}`: "
                                "every outer scope that also defines the name overwrites the entry of the inner one, so the OUTERMOST binding wins and "
                                "an outer variable shadows a macro's iteration variable of the same name")
-            return None, f"`{listname}[{ast.unparse(n.slice)}] = ...`: not a recognised way of collecting candidates"
-        if isinstance(n, ast.AugAssign) and isinstance(n.target, ast.Name) and n.target.id == listname:
-            return None, f"`{listname}` is updated with an augmented assignment"
+            return None, f"`{n.value.id}[{ast.unparse(n.slice)}] = ...`: not a recognised way of collecting candidates"
+        if isinstance(n, ast.AugAssign) and isinstance(n.target, ast.Name) and n.target.id in pools:
+            return None, f"`{n.target.id}` is updated with an augmented assignment"
     if not is_list:
-        return None, f"`{listname}` is not initialised as an empty list"
+        return None, f"the pool {pools} is not a list"
     if writes == 0:
-        return None, f"`{listname}` is never filled inside the scope loop"
+        return None, "the pool is never filled inside the scope loop"
     return True, "candidates are appended to a list in parent_iter() order"
 
 
@@ -209,7 +261,7 @@ def check(repo: Repo, run: Run) -> None:
     run.shape("C12.N2", "Evaluator.set_activation", "self.base_activation.clone()" in s and "load_values(values)" in s,
            "bindings of a (macro) call are loaded into a clone of the evaluator's base activation, in front of what it already holds", ev.loc(sa) if sa else str(ev.path))
     for m in ("macro_map", "macro_filter", "macro_exists_one", "macro_exists", "macro_all"):
-        fn = ev.func(m)
+        fn = ev.func_n(m)
         s = ast.unparse(fn)
         run.shape("C12.N2", m, "activation.nested_activation(vars={bind_variable:" in s,
                f"{m} evaluates the body in activation.nested_activation(vars={{bind_variable: value}})", ev.loc(fn))
@@ -226,7 +278,7 @@ def check(repo: Repo, run: Run) -> None:
     run.ob("C12.N2", "NameContainer.parent_iter", body[:1] == ["yield self"] and any("self.parent.parent_iter()" in b for b in body[1:]),
            "parent_iter yields the innermost scope first, then its parents", ev.loc(pi))
     # N3 -----------------------------------------------------------------
-    rn = ev.func("NameContainer.resolve_name")
+    rn = ev.func_n("NameContainer.resolve_name")
     verdict, why = selection_idiom(rn)
     acc_ok, acc_why = accumulation_shape(rn)
     if acc_ok is None:
